@@ -44,6 +44,10 @@ type Snapshot struct {
 //
 //go:norace
 func (s *Snapshot) AsFault() Fault {
+	if s.Class == "now" && s.StepID >= 0 {
+		// an image of the quiescent state after a step
+		return Fault{StepID: s.StepID, Class: "now", Nth: 0, Kind: s.Kind, Arg: s.Arg}
+	}
 	return Fault{StepID: s.StepID, Class: "fmp", Nth: s.FMP, Kind: s.Kind, Arg: s.Arg}
 }
 
